@@ -452,6 +452,27 @@ pub fn run(args: &Args, rep: &mut Report) {
             }
         }
     }
+    // ---- (b3) a run of every length with one of its long-name slots released (0xE5): what is left of the run is
+    // broken, the entry falls back to its short name (an interrupted remove / rename leaves exactly this)
+    for nrun in 1..=20usize {
+        let name: Vec<u16> = (0..nrun * 13 - 4).map(|i| 0x61 + (i % 26) as u16).collect();
+        let run = good_run(&name, &sfn, 0x20);
+        for del in 0..nrun {
+            n += 1;
+            if n % nshards != shard {
+                continue;
+            }
+            let mut slots = run.clone();
+            slots[del][0] = 0xE5;
+            judge(rep, &b, &slots, (nrun + del) % 3 == 0, &format!("released:{}-slot run with long-name slot {} released", nrun, del));
+            // ... and with everything in front of the released slot released as well
+            let mut slots = run.clone();
+            for s in slots.iter_mut().take(del + 1) {
+                s[0] = 0xE5;
+            }
+            judge(rep, &b, &slots, (nrun + del) % 3 == 1, &format!("released:{}-slot run with long-name slots 0..={} released", nrun, del));
+        }
+    }
     // ---- (c) maximal and over-long runs
     for units in [247usize, 248, 254, 255, 256, 259, 260, 261, 273, 390] {
         for fill in [0x61u16, 0x4e2d, 0xD800] {
